@@ -565,7 +565,7 @@ def check_c12(tier, replay):
         # the scaled 32-bit space: Mod = 16 (windows <= 3 < Mod/2); offsets placed so that both boundaries are crossed
         for (i, (sn, clk)) in enumerate([("SnOffA", 16), ("SnOffB", 8)] + ([("SnOffC", 16), ("SnOffD", 8)] if th else [])):
             out.append(("mc_c12_%d.cfg" % i, mc_cfg(["stream", "msg", "fast", "stream"][i], spec_inv, mod=4096, snoff=sn, clk=clk * 256 - 100,
-                                                    maxbytes=80 if th else 40, maxtime=500 if i != 2 else 60,
+                                                    maxbytes=80 if (th and i != 2) else 40, maxtime=500 if i != 2 else 60,   # (the fast instance with 80 bytes does not finish in 30 min)
                                                     ticks="{100}" if i != 2 else "{10}"), None))
         return out
 
